@@ -5,6 +5,7 @@
 -/
 import PurlModel.Ops
 import PurlModel.Lemmas.QualsInv
+import PurlModel.Lemmas.Checksum
 namespace Purl
 open Generated
 
@@ -271,6 +272,12 @@ theorem step_inv {q q' : Quals} {op : QOp} {o : QOut} (hq : QInv q) (h : q.step 
     · rename_i q2 ht; simp at h; obtain ⟨_, rfl⟩ := h; exact tryFromIter_inv U QInv_nil ht
     · simp at h; obtain ⟨_, rfl⟩ := h; exact hq
     · simp [panic] at h
+  | cloneFrom items =>
+    simp only [Quals.step] at h
+    split at h
+    · rename_i q2 ht; simp at h; obtain ⟨_, rfl⟩ := h; exact tryFromIter_inv U QInv_nil ht
+    · simp at h; obtain ⟨_, rfl⟩ := h; exact hq
+    · simp [panic] at h
   | eqKey i s =>
     simp only [Quals.step] at h
     split at h <;> (simp at h; obtain ⟨_, rfl⟩ := h; exact hq)
@@ -282,6 +289,17 @@ theorem step_inv {q q' : Quals} {op : QOp} {o : QOut} (hq : QInv q) (h : q.step 
     split at h
     · simp at h; obtain ⟨_, rfl⟩ := h; exact hq
     · simp at h
+  | tryGetChecksum =>
+    simp only [Quals.step] at h
+    split at h
+    · simp at h
+    · simp at h; obtain ⟨_, rfl⟩ := h; exact hq
+    · split at h
+      · simp at h; obtain ⟨_, rfl⟩ := h; exact hq
+      · split at h
+        · simp at h; obtain ⟨_, rfl⟩ := h; exact hq
+        · simp at h; obtain ⟨_, rfl⟩ := h; exact hq
+        · simp [panic] at h
   | hasTyped n =>
     simp only [Quals.step] at h
     split at h
@@ -363,6 +381,25 @@ theorem getMutIndex_eq (q : Quals) (k : Str) :
       obtain ⟨w, hw, _⟩ := getElem_lb_of_found hf
       simp [vecGet, hw]
 
+/-- `try_from_iter` never panics: it answers a collection or an error -/
+theorem tryFromIter_no_panic (items : List (Str × Str)) (acc : Quals) :
+    (∃ q', Quals.tryFromIter U items acc = .ok q') ∨ (∃ e, Quals.tryFromIter U items acc = .error (.err e)) := by
+  induction items generalizing acc with
+  | nil => exact .inl ⟨acc, rfl⟩
+  | cons kv rest ih =>
+    obtain ⟨k, v⟩ := kv
+    simp only [Quals.tryFromIter]
+    cases hk : isValidKey k with
+    | false => rw [entry_invalid U hk]; exact .inr ⟨_, rfl⟩
+    | true =>
+      obtain ⟨mk, hmk, he⟩ := entry_valid U hk acc
+      rw [he]
+      cases hf : foundAt (asciiLower k) acc with
+      | true => exact .inr ⟨_, rfl⟩
+      | false =>
+        simp only [Bool.false_eq_true, if_false, vacantInsert_eq hmk hf]
+        exact ih _
+
 theorem step_ok (q : Quals) (op : QOp) (h : docPanic q op = false) : ∃ r, q.step U op = .ok r := by
   cases op with
   | insert k v =>
@@ -420,27 +457,12 @@ theorem step_ok (q : Quals) (op : QOp) (h : docPanic q op = false) : ∃ r, q.st
     simp [hf, hq']
   | tryFromIter items =>
     simp only [Quals.step]
-    -- tryFromIter never panics: by induction over the items
-    have key : ∀ (items : List (Str × Str)) (acc : Quals),
-        (∃ q', Quals.tryFromIter U items acc = .ok q') ∨ (∃ e, Quals.tryFromIter U items acc = .error (.err e)) := by
-      intro items
-      induction items with
-      | nil => intro acc; exact .inl ⟨acc, rfl⟩
-      | cons kv rest ih =>
-        intro acc
-        obtain ⟨k, v⟩ := kv
-        simp only [Quals.tryFromIter]
-        cases hk : isValidKey k with
-        | false => rw [entry_invalid U hk]; exact .inr ⟨_, rfl⟩
-        | true =>
-          obtain ⟨mk, hmk, he⟩ := entry_valid U hk acc
-          rw [he]
-          cases hf : foundAt (asciiLower k) acc with
-          | true => exact .inr ⟨_, rfl⟩
-          | false =>
-            simp only [Bool.false_eq_true, if_false, vacantInsert_eq hmk hf]
-            exact ih _
-    rcases key items [] with ⟨q', hq'⟩ | ⟨e, he⟩
+    rcases tryFromIter_no_panic U items [] with ⟨q', hq'⟩ | ⟨e, he⟩
+    · rw [hq']; exact ⟨_, rfl⟩
+    · rw [he]; exact ⟨_, rfl⟩
+  | cloneFrom items =>
+    simp only [Quals.step]
+    rcases tryFromIter_no_panic U items [] with ⟨q', hq'⟩ | ⟨e, he⟩
     · rw [hq']; exact ⟨_, rfl⟩
     · rw [he]; exact ⟨_, rfl⟩
   | eqKey i s =>
@@ -450,6 +472,21 @@ theorem step_ok (q : Quals) (op : QOp) (h : docPanic q op = false) : ∃ r, q.st
     simp only [Quals.step]
     cases q[i]? <;> exact ⟨_, rfl⟩
   | getTyped n => simp only [Quals.step, get_eq U]; exact ⟨_, rfl⟩
+  | tryGetChecksum =>
+    simp only [Quals.step, get_eq U]
+    split
+    · rename_i heq; cases heq
+    · exact ⟨_, rfl⟩
+    · split
+      · exact ⟨_, rfl⟩
+      · rename_i ck _
+        have hp := toText_no_panic ck
+        split
+        · exact ⟨_, rfl⟩
+        · exact ⟨_, rfl⟩
+        · rename_i site heq
+          rw [heq] at hp
+          simp [Res.isPanic] at hp
   | hasTyped n => simp only [Quals.step, containsKey_eq U]; exact ⟨_, rfl⟩
   | insertTyped n v =>
     simp only [docPanic, Bool.not_eq_eq_eq_not, Bool.not_false] at h
